@@ -1057,6 +1057,17 @@ def run_cigar_parse(case):
     ali = align.read_alignment_from_cigar(cigar, pos, ref_seq, seg_seq)
     cols = check_valid_trace(o, ali, f"read_alignment_from_cigar({text!r}, {pos})")
     o.check_array_eq(ali.trace, np.array(want, dtype=int).reshape(-1, 2), "cigar_read_columns", f"trace of {text!r} at {pos}")
+    # the caller owns the returned alignment: editing its trace in place must not influence a
+    # later parse of the same CIGAR (at the same or another position)
+    if len(want) > 0:
+        probe = align.read_alignment_from_cigar(cigar, 0, ref_seq, seg_seq)
+        probe.trace[...] = -7
+        again0 = align.read_alignment_from_cigar(cigar, 0, ref_seq, seg_seq)
+        want0 = np.array(want, dtype=int).reshape(-1, 2)
+        want0[want0[:, 0] != -1, 0] -= pos
+        o.check_array_eq(again0.trace, want0, "cigar_read_columns", f"second parse of {text!r} at 0 after the first result was edited in place")
+        again = align.read_alignment_from_cigar(cigar, pos, ref_seq, seg_seq)
+        o.check_array_eq(again.trace, np.array(want, dtype=int).reshape(-1, 2), "cigar_read_columns", f"repeated parse of {text!r} at {pos}")
     syms = {sym for sym, _ in ops}
     for sym in sorted(syms):
         o.label("op" + sym)
@@ -1222,7 +1233,84 @@ def run_cigar_small(case):
 
 
 # --------------------------------------------------------------------------
+# --------------------------------------------------------------------------
+# code / symbol matrices for alphabets beyond 127 and 255 symbols (code dtype widths)
+# --------------------------------------------------------------------------
+def st_wide(tier):
+    @st.composite
+    def gen(draw):
+        size = draw(st.sampled_from([127, 128, 129, 200, 255, 256, 257, 300, 70000]))
+        n = draw(st.integers(2, 3))
+        top = [size - 1, size - 2, max(0, size - 129), 127 % size, 128 % size, 255 % size, 0, 1]
+        seqs = [draw(st.lists(st.sampled_from(top), min_size=1, max_size=6)) for _ in range(n)]
+        runs = draw(st.lists(st.tuples(st.integers(1, 2**n - 1), st.integers(1, 2)), min_size=1, max_size=6))
+        return {"size": size, "seqs": seqs, "runs": [list(r) for r in runs]}
+
+    return gen()
+
+
+def run_wide(case):
+    import biotite.sequence as bseq
+    import biotite.sequence.align as align
+
+    o = Outcome()
+    size = case["size"]
+    alph = bseq.Alphabet(range(size))
+    n = len(case["seqs"])
+    # columns from the runs, cut where a sequence is used up
+    idx = [0] * n
+    cols = []
+    for mask, length in case["runs"]:
+        for _ in range(length):
+            row = []
+            for i in range(n):
+                if (mask >> i) & 1 and idx[i] < len(case["seqs"][i]):
+                    row.append(idx[i])
+                    idx[i] += 1
+                else:
+                    row.append(-1)
+            if any(x != -1 for x in row):
+                cols.append(row)
+    if not cols:
+        o.invalid = True
+        return o
+    seqs = []
+    for codes in case["seqs"]:
+        sq = bseq.GeneralSequence(alph)
+        sq.code = np.array(codes, dtype=np.int64)
+        seqs.append(sq)
+    ali = align.Alignment(seqs, np.array(cols, dtype=np.int64), None)
+    want_codes = [[-1 if row[i] == -1 else case["seqs"][i][row[i]] for row in cols] for i in range(n)]
+    o.label(f"alphabet={size}", "code>=128" if any(c >= 128 for r in want_codes for c in r) else "code<128")
+    got = align.get_codes(ali)
+    o.check_eq(np.asarray(got).tolist(), want_codes, "codes_columnwise", f"get_codes over an alphabet of {size} symbols")
+    sym = align.get_symbols(ali)
+    want_sym = [[None if c == -1 else c for c in r] for r in want_codes]
+    o.check_eq([list(r) for r in sym], want_sym, "symbols_columnwise", f"get_symbols over an alphabet of {size} symbols")
+    # identity = matches / length, recomputed per column (mode 'all': all columns)
+    for i in range(n):
+        for j in range(i + 1, n):
+            both = [(a, b) for a, b in zip(want_codes[i], want_codes[j])]
+            matches = sum(1 for a, b in both if a != -1 and a == b)
+            pair = align.Alignment([seqs[i], seqs[j]], np.array([[r[i], r[j]] for r in cols if not (r[i] == -1 and r[j] == -1)], dtype=np.int64).reshape(-1, 2), None)
+            if len(pair.trace) == 0:
+                continue
+            got_id = align.get_sequence_identity(pair, mode="all")
+            o.check(abs(got_id - matches / len(pair.trace)) < 1e-12, "identity_columnwise", lambda: f"identity of rows {i},{j}: {got_id} != {matches}/{len(pair.trace)}")
+    o.mark_nontrivial(any(c >= 128 for r in want_codes for c in r))
+    return o
+
+
 SUBS = [
+    Sub(
+        "wide_alphabets",
+        st_wide,
+        run_wide,
+        quick=1200,
+        thorough=40000,
+        rule="alignment over an alphabet of 127..70000 symbols containing a code >= 128",
+        clauses="get_codes / get_symbols / identity equal a column loop for every code width",
+    ),
     Sub(
         "conversions",
         st_conv,
